@@ -121,7 +121,9 @@ pub fn c11(seed: u64, budget: usize) -> Report {
         let mut rep = Report::new();
         let mut r = Rng::new(seed ^ (th * 1299709 + 17));
         for _ in 0..(budget / 64 / 400 + 1) {
-            let (ssx, ssy) = *r.pick(&SS); let w = (((1 + r.below(64)) >> ssx).max(1) << ssx) as usize; let h = (((1 + r.below(24)) >> ssy).max(1) << ssy) as usize;
+            let (ssx, ssy) = *r.pick(&SS); let mut w = (((1 + r.below(64)) >> ssx).max(1) << ssx) as usize; let h = (((1 + r.below(24)) >> ssy).max(1) << ssy) as usize;
+            // one image in four has an alignment-sized width (so that stride == width when there is no horizontal padding)
+            let aligned = r.below(4) == 0; if aligned { w = *r.pick(&[32usize, 64]); }
             let u16s = r.below(2) == 1; let bd: u8 = if u16s { *r.pick(&[8u8, 10, 12, 16]) } else { 8 }; let full = r.below(2) == 1;
             let m = *r.pick(&STD7); let t = *r.pick(&TC14); let p = *r.pick(&CP11);
             let cfg = cfg_of(bd, ssx, ssy, full, mc_of(m).unwrap(), tc_of(t).unwrap(), cp_of(p).unwrap());
@@ -144,6 +146,8 @@ pub fn c11(seed: u64, budget: usize) -> Report {
             let vp = [0usize, 1, 8, 17, 33, 64, 70];
             let pa = [r.below(33) as usize, r.below(33) as usize, r.below(33) as usize, r.below(33) as usize, *r.pick(&vp), r.below(33) as usize];
             let pb = [r.below(33) as usize, r.below(33) as usize, *r.pick(&vp), r.below(33) as usize, r.below(33) as usize, r.below(33) as usize];
+            // ... and then only vertical padding in the first layout (flat-buffer shortcuts that forget the rows above the picture)
+            let pa = if aligned { [0, 1 + r.below(8) as usize, 0, 1 + r.below(8) as usize, 0, 1 + r.below(8) as usize] } else { pa };
             let (a8, a16) = frame_of(&mut r, u16s, w, h, ssx, ssy, pa, &logical);
             let (b8, b16) = frame_of(&mut r, u16s, w, h, ssx, ssy, pb, &logical);
             // decode: layout independence, determinism, source untouched, pointwise = 1x1 conversion
@@ -319,6 +323,32 @@ pub fn c14(_seed: u64) -> Report {
                 }
             } }
         } } }
+    }
+    // subsampled configurations: every conversion has the same outcome (success / the same error) as with the 4:4:4 layout of
+    // the same triple, and never panics
+    {
+        let img = |w: usize, h: usize| vec![[0.25f32, 0.5, 0.75]; w * h];
+        let outcome = |f: &dyn Fn() -> Result<(), ConversionError>| -> String {
+            match std::panic::catch_unwind(std::panic::AssertUnwindSafe(|| f())) { Ok(Ok(())) => "ok".into(), Ok(Err(e)) => format!("err:{:?}", e), Err(_) => "panic".into() } };
+        for m in MCS.iter().filter(|x| x.0 != "Unspecified") { for p in [("BT709", ColorPrimaries::BT709), ("BT2020", ColorPrimaries::BT2020), ("ST170M", ColorPrimaries::ST170M)] {
+            let t = TransferCharacteristic::BT1886; let (w, h) = (8usize, 8usize);
+            let base_cfg = cfg_of(8, 0, 0, false, m.1, t, p.1);
+            for (ssx, ssy) in [(1u8, 0u8), (1, 1), (0, 1), (2, 0)] {
+                let cfg = cfg_of(8, ssx, ssy, false, m.1, t, p.1);
+                let runs: Vec<(&str, Box<dyn Fn(YuvConfig) -> Result<(), ConversionError>>)> = vec![
+                    ("Rgb->Yuv", Box::new(move |c| Yuv::<u8>::try_from((&Rgb::new(img(w, h), w, h, t, p.1).unwrap(), c)).map(|_| ()))),
+                    ("LinearRgb->Yuv", Box::new(move |c| Yuv::<u8>::try_from((LinearRgb::new(img(w, h), w, h).unwrap(), c)).map(|_| ()))),
+                    ("Xyb->Yuv", Box::new(move |c| Yuv::<u8>::try_from((Xyb::new(img(w, h), w, h).unwrap(), c)).map(|_| ()))),
+                    ("Yuv->Rgb", Box::new(move |c| { let f: Frame<u8> = Frame { planes: [Plane::new(w, h, 0, 0, 0, 0), Plane::new(w >> c.subsampling_x, h >> c.subsampling_y, c.subsampling_x as usize, c.subsampling_y as usize, 0, 0), Plane::new(w >> c.subsampling_x, h >> c.subsampling_y, c.subsampling_x as usize, c.subsampling_y as usize, 0, 0)] };
+                        match Yuv::<u8>::new(f, c) { Ok(y) => Rgb::try_from(&y).map(|_| ()), Err(e) => panic!("Yuv::new rejected a well-formed subsampled frame: {:?}", e) } })),
+                ];
+                for (name, f) in runs.iter() {
+                    rep.evaluated += 1;
+                    let a = outcome(&|| f(base_cfg)); let b = outcome(&|| f(cfg));
+                    if b == "panic" || a != b { rep.fail("a subsampled configuration behaves differently from the 4:4:4 one (or panics)", format!("{} {} {} ss=({},{})", name, m.0, p.0, ssx, ssy), b, a); }
+                }
+            }
+        } }
     }
     let mut r = Rng::new(7);
     for m in STD7 { for _ in 0..40 {
